@@ -26,7 +26,9 @@ fn err_tag(e: &NameErr) -> &'static str {
 pub fn check_at(buf: &[u8], off: usize) -> (Vec<Finding>, bool, &'static str) {
     let mk_case = || json!({"kind": "at", "buf": hex(buf), "off": off});
     let reference = decode_name(buf, off);
+    crate::engine::watch_begin(buf);
     let lib = guarded(|| Name::verif_parse_at(buf, off).map(|(n, next)| (obs_name(&n), next)));
+    crate::engine::watch_end();
     let mut out = Vec::new();
     let nontrivial;
     let tag;
@@ -94,7 +96,9 @@ pub fn check_at(buf: &[u8], off: usize) -> (Vec<Finding>, bool, &'static str) {
 /// independent walker finds, and fixed fields must be read from where the name's in-place bytes end.
 pub fn check_embedded(msg: &[u8], rdata_name_at: Option<usize>) -> (Vec<Finding>, bool, &'static str) {
     let mk_case = || json!({"kind": "embedded", "msg": hex(msg), "rdata_name_at": rdata_name_at});
+    crate::engine::watch_begin(msg);
     let lib = guarded(|| Packet::parse(msg).map(|p| crate::bind::observe(&p)));
+    crate::engine::watch_end();
     let w = walk(msg);
     let mut out = Vec::new();
     match (lib, w) {
@@ -276,6 +280,19 @@ pub fn run(ctx: &Ctx) {
     let le = ctx.tier.pick(5usize, 6usize);
     ctx.set_rule("every buffer of the prefix tree decoded at every start offset 0..=len through the real Name decoder (hook) and compared with an RFC 1035 4.1.4 reference decoder; the same alphabet embedded as question / owner / RDATA name of a message given to Packet::parse and compared with an independent envelope walker. non-trivial = the reference decodes at least one label or pointer, or rejects for a reason other than truncation");
     ctx.assume("a pointer is 'backward' when its target lies strictly before the pointer's own position; forward pointers may be rejected; expanded length counts the terminating zero");
+    {
+        let root = ctx.verif_root.clone();
+        crate::engine::start_watchdog(std::time::Duration::from_secs(20), move |what, dt| {
+            let path = format!("{}/replays/C06-hang.json", root);
+            let _ = std::fs::create_dir_all(format!("{}/replays", root));
+            let body = json!({"property": "C06", "signature": "C06|decode-does-not-terminate", "detail": format!("decoding did not return after {:?} (pointer cycles must be errors)", dt), "case": {"kind": "hang", "buf": hex(what)}});
+            let _ = std::fs::write(&path, serde_json::to_string(&body).unwrap());
+            println!("VIOLATION property=C06 replay={}", path);
+            println!("  signature: C06|decode-does-not-terminate");
+            println!("  detail: a name in {} did not decode within {:?}", crate::engine::truncate(&hex(what), 120), dt);
+            std::process::exit(1);
+        });
+    }
     // space 1: prefix tree at every offset
     tree(ctx, &SIGMA, l, &format!("prefix tree: buffers of length <= {} over 13 symbols, every start offset", l), &|b, t| {
         for off in 0..=b.len() {
@@ -398,6 +415,48 @@ pub fn run(ctx: &Ctx) {
     }
     ctx.merge(t);
     ctx.space("boundary family: label lengths {1,61,62,63} up to 4 labels, plain and via a pointer into an earlier name, expanded length 248..=260; decoded by hook and as question names", bb.len() as u64 * 2, "complete");
+    // space 3b: a length byte of 0x40..=0xbf (reserved label type, or "label" of 64..191 bytes)
+    // followed by that many bytes, reached in place and through a pointer
+    {
+        let mut t = Tally::default();
+        let mut n = 0u64;
+        for lb in [0x3fu8, 0x40, 0x41, 0x7f, 0x80, 0xa5, 0xbf] {
+            let mut buf = vec![lb];
+            buf.extend(std::iter::repeat(b'f').take((lb & 0x3f) as usize + if lb >= 0x40 { lb as usize - (lb & 0x3f) as usize } else { 0 }));
+            buf.push(0);
+            let tail_at = buf.len();
+            // name: label "c" + pointer to offset 0; and a bare pointer to offset 0
+            buf.extend_from_slice(&[1, b'c', 0xc0, 0x00]);
+            let bare_at = buf.len();
+            buf.extend_from_slice(&[0xc0, 0x00]);
+            for start in [0usize, tail_at, bare_at] {
+                t.evals += 1;
+                t.nontrivial += 1;
+                n += 1;
+                let (f, _, tag) = check_at(&buf, start);
+                t.outcome(tag);
+                ctx.violations(f);
+            }
+            // embedded: first answer NULL with that RDATA, second answer's owner points into it
+            let mut msg = header([0, 2, 0, 0]);
+            msg.extend_from_slice(&[1, b'a', 0, 0, 10, 0, 1, 0, 0, 0, 0]);
+            let rd = &buf[..tail_at];
+            msg.extend_from_slice(&(rd.len() as u16).to_be_bytes());
+            let rd_at = msg.len();
+            msg.extend_from_slice(rd);
+            msg.extend_from_slice(&[1, b'c', 0xc0 | (rd_at >> 8) as u8, rd_at as u8, 0, 1, 0, 1, 0, 0, 0, 1, 0, 4, 1, 2, 3, 4]);
+            t.evals += 1;
+            n += 1;
+            let (f, nt, tag) = check_embedded(&msg, None);
+            if nt {
+                t.nontrivial += 1;
+            }
+            t.outcome(tag);
+            ctx.violations(f);
+        }
+        ctx.merge(t);
+        ctx.space("long length bytes: 0x3f/0x40/0x41/0x7f/0x80/0xa5/0xbf followed by that many bytes, decoded in place, via label+pointer and via a bare pointer, and as an owner name pointing into opaque RDATA", n, "complete");
+    }
     // space 4: embedded sweeps
     let emb: [u8; 12] = [0x00, 0x01, 0x02, 0x3f, 0x40, 0x80, 0xc0, 0x0c, 0x0d, 0x0e, 0x17, b'a'];
     tree(ctx, &emb, le + 1, &format!("embedded as question: header(QD=1) + body of length <= {} over 12 symbols", le + 1), &|b, t| {
